@@ -243,12 +243,29 @@ def draw_dim(c):
     return -1 if len(c["x"]) % 2 else 1
 
 
+def _guard(fn):
+    def wrapped(c, rec):
+        try:
+            return fn(c, rec)
+        except Violation:
+            raise
+        except (ValueError, TypeError, IndexError, RuntimeError, FloatingPointError, ZeroDivisionError, OverflowError) as e:
+            import traceback
+            tb = traceback.extract_tb(e.__traceback__)
+            inside = any("/synapgrad/" in fr.filename for fr in tb)
+            if not inside:
+                raise                       # a harness problem, not the library
+            raise Violation("raised", f"{c['op']} raised {type(e).__name__}: {e} for finite inputs in the promised domain "
+                                      f"(shape {np.shape(c['x'])}, dtype {c['dtype']})", region=c["op"])
+    return wrapped
+
+
 def subchecks():
     subs = []
     for op in ("sigmoid", "tanh", "selu", "bce_logits"):
-        subs.append(SubCheck(op, check_elementwise, (lambda op=op: elementwise_cases(op)),
+        subs.append(SubCheck(op, _guard(check_elementwise), (lambda op=op: elementwise_cases(op)),
                              quick=1500, thorough=20000, shards_quick=2, shards_thorough=4))
     for op in ("softmax", "log_softmax", "cross_entropy"):
-        subs.append(SubCheck(op, check_logits, (lambda op=op: logit_cases(op)),
+        subs.append(SubCheck(op, _guard(check_logits), (lambda op=op: logit_cases(op)),
                              quick=1500, thorough=20000, shards_quick=2, shards_thorough=4))
     return subs
